@@ -263,4 +263,25 @@ __CPROVER_ensures(OLD(self->_state) == kError ==> (g.out_state == g.err_state &&
 void harness(void) { ghost_havoc(); Any* self; Dtor(self); if (g.out_state == RS_Value) VF_CANARY("value was already set"); else VF_CANARY("failure published"); }
 '''
     out.append(Job('any/FirstFail.Dtor', props, src, 'harness', enforce='Dtor', replace=['P_Valid', 'P_Set_saved'], funcs=[b_ffd], canaries=1, expect=[r'postcondition', r'precondition'], meta={'fn': 'Any<FirstFail>::~Any'}))
+    # ---- WhenAny(begin, count): the one-future short cut ---------------------------------------------------------------------------------------------
+    F_WA = 'include/yaclib/async/when_any.hpp'
+    b = find_body(repo, F_WA, r'auto\s+WhenAny\s*\(\s*It\s+begin\s*,\s*std::size_t\s+count\s*\)', 'WhenAny(begin, count)')
+    pre = [(r'is_future_base_v<T>', 'IS_UNIQUE', 0), (r'using\s+\w+\s*=\s*async_\w+_t<T>\s*;', '', 0),
+           (r'return\s+Future<V,\s*E>\{\s*std::exchange\(\s*begin->GetCore\(\)\s*,\s*nullptr\s*\)\s*\}\s*;', '{ Core* vf_c = begin->_core; begin->_core = 0; return vf_c; }', 1),
+           (r'return\s+when::When<when::Any,\s*F,\s*typename\s+T::Core::Value,\s*typename\s+T::Core::Error>\(\s*begin\s*,\s*count\s*\)\s*;', 'return WHEN_ANY(begin, count);', 1)]
+    c = Rewriter('WhenAny(begin, count)', pre=pre).rewrite(b.text)
+    for uq in (0, 1):
+        src = '#include "vf.h"\n#define IS_UNIQUE %d\n' % uq + '''typedef struct Core { int x; } Core; typedef struct Handle { Core* _core; } Handle;
+unsigned g_whens; Handle* g_when_begin; size_t g_when_count; Core g_out;
+Core* WHEN_ANY(Handle* b, size_t n) __CPROVER_requires(g_whens == 0) __CPROVER_assigns(g_whens, g_when_begin, g_when_count) __CPROVER_ensures(g_whens == 1 && g_when_begin == b && g_when_count == n && RET == &g_out);
+Core* WhenAny(Handle* begin, size_t count)
+__CPROVER_requires(__CPROVER_is_fresh(begin, sizeof(*begin)) && begin->_core != 0 && g_whens == 0)
+__CPROVER_assigns(begin->_core, g_whens, g_when_begin, g_when_count)
+/* C10: WhenAny over exactly one unique future IS that future (its outcome, its readiness moment; the input handle is consumed, nothing is allocated); every other case goes through the
+   combinator exactly once with the whole range (SharedFuture inputs always do: the input must stay usable) */
+__CPROVER_ensures((IS_UNIQUE && count == 1) ? (RET == OLD(begin->_core) && begin->_core == 0 && g_whens == 0) : (g_whens == 1 && g_when_begin == begin && g_when_count == count && RET == &g_out && begin->_core == OLD(begin->_core)))
+{''' + c + '''}
+void harness(void) { g_whens = 0; Handle* b; size_t n; WhenAny(b, n); if (g_whens) VF_CANARY("combinator"); else VF_CANARY("the future itself"); }
+'''
+        out.append(Job('any/WhenAny.range.unique%d' % uq, props + ['C20'], src, 'harness', enforce='WhenAny', replace=['WHEN_ANY'], funcs=[b], canaries=2 if uq else 1, expect=[r'postcondition'], meta={'fn': 'WhenAny(begin, count)'}))
     return out
